@@ -43,7 +43,8 @@ type ShipSpec struct {
 
 type LoaderFault struct {
 	Call int    `json:"call"`
-	Kind string `json:"kind"` // notfound | error
+	Kind string `json:"kind"` // notfound | error | swap (the store answers with ANOTHER delegation it holds)
+	With string `json:"with,omitempty"` // swap: label of the delegation handed out instead
 }
 
 type CheckSpec struct {
@@ -242,6 +243,7 @@ type artefact struct {
 }
 
 type faultLoader struct {
+	swap   func(label string) (*delegation.Token, string)
 	inner  delegation.Loader
 	faults []LoaderFault
 	calls  int
@@ -261,6 +263,18 @@ func (l *faultLoader) GetDelegation(c cid.Cid) (*delegation.Token, error) {
 	l.calls++
 	for _, f := range l.faults {
 		if f.Call == i {
+			if f.Kind == "swap" {
+				// a store whose index is wrong: the answer is a delegation it really holds, but
+				// not the one that was asked for; the model judges what was handed out
+				if l.swap != nil {
+					if t, cidhex := l.swap(f.With); t != nil {
+						l.o.Fault("loader_swap")
+						l.got = append(l.got, loadRec{cidhex, true})
+						return t, nil
+					}
+				}
+				break
+			}
 			l.got = append(l.got, loadRec{cidHex(c.Bytes()), false})
 			if f.Kind == "error" {
 				l.o.Fault("loader_error")
@@ -953,6 +967,17 @@ func (w *worldExec) decideProv(label string, c *CheckSpec, useHook bool, prov st
 		inner = builtLoader{w}
 	}
 	ld := &faultLoader{inner: inner, faults: c.LFaults, o: o}
+	ld.swap = func(label string) (*delegation.Token, string) {
+		a, ok := w.outbox[label]
+		if !ok || a.kind != "dlg" {
+			return nil, ""
+		}
+		t, err := inner.GetDelegation(mustCID(a.cid))
+		if err != nil || t == nil {
+			return nil, ""
+		}
+		return t, cidHex(a.cid)
+	}
 	var err error
 	hookFailed := false
 	entry := "ExecutionAllowed"
